@@ -1054,3 +1054,58 @@ Proof.
   destruct HF as [_ HS]. eapply sc_early; eauto.
 Qed.
 End Theorems2.
+
+(** the run numbers of the on_initialize_run records, in order *)
+Fixpoint init_nos (h : list event) : list Z :=
+  match h with
+  | [] => []
+  | EvHook r :: rest =>
+    match h_hook r, h_runno r with
+    | HInitRun, Some n => n :: init_nos rest
+    | _, _ => init_nos rest
+    end
+  | _ :: rest => init_nos rest
+  end.
+
+(** the options of an accepted reset, spelled out *)
+Theorem thm_reset_options stmt start th md ls l t o :
+  let s := run_labels (init_state stmt start th md) ls in
+  let s' := step s l in
+  In (EvRet t (CReset o) ROk) (appended s s') ->
+  exists ra, run_arg s' = Some ra /\
+    (forall x, o_stmt o = Some x -> ra_stmt ra = x) /\
+    (forall n, o_start o = Some n -> ra_no ra = n) /\
+    (forall b, o_threads o = Some b -> ra_threads ra = b) /\
+    (forall b, o_modules o = Some b -> ra_modules ra = b).
+Proof.
+  intros s s' Hin. destruct (thm_reset_ok stmt start th md ls l t o Hin) as (_ & Hr & _).
+  eexists. split; [exact Hr|]. destruct (fst (snapshot stmt start th md ls)) as [[[a b] x] y]. simpl.
+  repeat split; intros v Hv; rewrite Hv; reflexivity.
+Qed.
+
+(** the statement "every PRunNo / PRunInfo publication between an on_initialize_run record and
+    the next one carries the number of the former" is false of the model: the publications of an
+    initialisation precede its hook record *)
+Definition refute_ls : list label :=
+  [Call 0 CStart; Step 0; Step 0; Step 0; Call 1 (CReset (mkOpts None None None None)); Step 1].
+
+Definition refute_h1 : list event :=
+  [EvCall 0 CStart; EvPub (PCont false); EvHook (mkHook HStart Created None None None); EvPub (PStatement 1);
+   EvHook (mkHook HChangeScript Created None (Some 1) None); EvPub (PRunNo 1); EvPub (PRunInfo 1 RInitialized 1 None)].
+Definition refute_mid : list event :=
+  [EvPub (PState Initialized); EvHook (mkHook HChangeState Initialized (Some 1) None None); EvRet 0 CStart ROk;
+   EvCall 1 (CReset (mkOpts None None None None)); EvHook (mkHook HReset Initialized (Some 1) None None)].
+Definition refute_h2 : list event :=
+  [EvPub (PRunInfo 2 RInitialized 1 None); EvHook (mkHook HInitRun Initialized (Some 2) (Some 1) None)].
+
+Lemma carried_original_refuted :
+  exists h1 a n mid k h2,
+    history (run_labels (init_state 1 1 true false) refute_ls) = h1 ++ a :: mid ++ EvPub (PRunNo k) :: h2 /\
+    is_init a n /\ no_init mid /\ k <> n.
+Proof.
+  exists refute_h1, (EvHook (mkHook HInitRun Initialized (Some 1) (Some 1) None)), 1, refute_mid, 2, refute_h2.
+  split; [vm_compute; reflexivity|]. split; [|split; [|discriminate]].
+  - eexists. split; [reflexivity|]. split; reflexivity.
+  - intros r Hin. unfold refute_mid in Hin. simpl in Hin.
+    destruct Hin as [Hin|[Hin|[Hin|[Hin|[Hin|[]]]]]]; try discriminate Hin; inversion Hin; subst r; discriminate.
+Qed.
